@@ -23,8 +23,14 @@ def register(M):
 
     M.log = log
 
+    def poll_cell(ex, cell, cx, dty):
+        """poll the future stored in `cell` (used by combinator models)"""
+        pin = Adt('Pin<&mut ?>', {(None, 0): Ref(cell, ())})
+        return future_poll(ex, {'self_ty': '', 'key': 'Future::poll', 'method': 'poll'}, [pin, cx], dty)
+    M.poll_cell = poll_cell
+
     @reg('Future::poll', 'TryFuture::try_poll', 'FutureExt::poll_unpin')
-    def _(ex, info, a, dty):
+    def future_poll(ex, info, a, dty):
         pin = ex.materialize(a[0])
         cell, path = ex.deref(pin)
         v = ex.read_path(cell, path)
@@ -36,6 +42,17 @@ def register(M):
             return ex.call_body(body, [pin, a[1]])
         if isinstance(v, Obj) and v.kind == 'future':
             return M.poll_future_obj(ex, cell, path, v, dty)
+        if isinstance(v, Obj) and v.kind == 'join':
+            outs = list(v.outs)
+            for i, c in enumerate(v.cells):
+                if outs[i] is None:
+                    r = ex.materialize(poll_cell(ex, c, a[1], 'Poll<?>'))
+                    if ex.branch(M.discr(ex, r) == bv(0)):
+                        outs[i] = ex.field_of(r, 0, 0, '?')
+            ex.write_path(cell, path, v.set(outs=tuple(outs)))
+            if all(o is not None for o in outs):
+                return poll_ready(dty, Adt('tuple', {(None, i): o for i, o in enumerate(outs)}))
+            return poll_pending(dty)
         h = T.type_name_hint(info['self_ty'] or '')[0]
         f = M.table.get('poll<%s>' % h)
         if f is not None:
@@ -89,6 +106,10 @@ def register(M):
         log(ex, 'inner_write_called', writer=name, value=val)
         return ready_future(('write', name), pending=n,
                             on_ready=lambda ex_: log(ex_, 'inner_write_done', writer=name, value=val))
+
+    @reg('future::join', 'future::join3')
+    def _(ex, info, a, dty):
+        return Obj('join', cells=tuple(Cell(f) for f in a), outs=tuple(None for _ in a))
 
     def recv_name(ex, r):
         if isinstance(r, Ref):
